@@ -24,62 +24,11 @@ cov = {"states": res.distinct, "transitions": res.generated, "traces_validated_a
        "model_random_command_breaks_replica_agreement": lead.violated == "ReplicaAgreement"}
 
 
-def conv(r):
-    t, val = r
-    if t in ("+", "$"):
-        return {"k": "nil", "v": [], "e": "", "a": []} if val is None else {"k": "str", "v": list(val), "e": "", "a": []}
-    if t == ":":
-        return {"k": "int", "v": list(str(val).encode()), "e": "", "a": []}
-    if t == "-":
-        return {"k": "err", "v": [], "e": "WRONGTYPE" if val.startswith(b"WRONGTYPE") else "OTHER", "a": []}
-    return {"k": "nil", "v": [], "e": "", "a": []} if val is None else {"k": "arr", "v": [], "e": "", "a": [conv(x) for x in val]}
+from clusterscen import conv, READ_ONLY, Recorder, leader_of
+import clusterscen
 
 
-class Recorder:
-    def __init__(self, h):
-        self.h = h
-        self.lock = threading.Lock()
-        self.t = 0
-        self.ops = []
-
-    def tick(self):
-        with self.lock:
-            self.t += 1
-            return self.t
-
-    def new_op(self, argv):
-        with self.lock:
-            self.t += 1
-            op = {"id": len(self.ops) + 1, "argv": argv, "inv": self.t, "res": None, "reply": None, "now": int(time.time())}
-            self.ops.append(op)
-            return op
-
-    def done(self, op, reply):
-        with self.lock:
-            self.t += 1
-            op["res"] = self.t
-            op["reply"] = reply
-
-    def write(self, path, append=False):
-        evs = []
-        for op in self.ops:
-            evs.append((op["inv"], "inv", op))
-            if op["res"] is not None:
-                evs.append((op["res"], "res", op))
-        evs.sort(key=lambda e: e[0])
-        nil = {"k": "nil", "v": [], "e": "", "a": []}
-        with open(path, "a" if append else "w") as f:
-            f.write(json.dumps({"ev": "reset", "h": self.h, "id": 0, "now": 0, "argv": [], "answered": False}) + "\n")
-            for _, kind, op in evs:
-                argv = [list(a if isinstance(a, bytes) else a.encode()) for a in op["argv"]]
-                if kind == "inv":
-                    f.write(json.dumps({"ev": "inv", "h": self.h, "id": op["id"], "now": op["now"], "argv": argv,
-                                        "reply": op["reply"] or nil, "answered": op["res"] is not None}) + "\n")
-                else:
-                    f.write(json.dumps({"ev": "res", "h": self.h, "id": op["id"], "now": op["now"], "argv": [], "reply": op["reply"], "answered": True}) + "\n")
-
-
-def client_loop(cl, rec, cid, nops, rnd, stop, stats, pinned=None, barrier=None):
+def client_loop(cl, rec, cid, nops, rnd, stop, stats, pinned=None, barrier=None, pace=0.0):
     """pinned: the client keeps ONE connection to that node for all its commands (so that every node serves the same
     number of proposals at the same moments: ids or sequence numbers that are only unique per node then collide)."""
     conn, node = None, None
@@ -89,6 +38,8 @@ def client_loop(cl, rec, cid, nops, rnd, stop, stats, pinned=None, barrier=None)
     for i in range(nops):
         if stop.is_set() or unanswered >= 2:
             break
+        if pace:
+            time.sleep(pace)
         if conn is None:
             alive = [n for n in cl.nodes if n.alive()]
             if not alive:
@@ -153,7 +104,11 @@ def scenario(args):
             bar = threading.Barrier(n)
             threads = [threading.Thread(target=client_loop, args=(cl, rec, c, nops, random.Random(rnd.random()), stop, stats, cl.nodes[c], bar)) for c in range(n)]
         else:
-            threads = [threading.Thread(target=client_loop, args=(cl, rec, c, nops, random.Random(rnd.random()), stop, stats)) for c in range(nclients)]
+            # stall scenarios: paced clients that keep going until the stall is over, so that commands are in flight when the
+            # quorum disappears and when it comes back
+            stalling = any(f.startswith("stall:") for f in faults)
+            threads = [threading.Thread(target=client_loop, args=(cl, rec, c, 100000 if stalling else nops, random.Random(rnd.random()), stop, stats),
+                                        kwargs={"pace": 0.02 if stalling else 0.0}) for c in range(nclients)]
         for t in threads:
             t.start()
         removed = set()
@@ -190,12 +145,29 @@ def scenario(args):
                 time.sleep(0.8 + rnd.random())
                 cl.start_node(victim)
                 stats["faults"].append("restart node %d" % victim.id)
+            elif f.startswith("stall:"):
+                # the quorum is lost for a while (all nodes but a minority stopped) with commands in flight, then comes back:
+                # nothing may be lost, applied twice or answered with somebody else's reply however long a proposal waited
+                dur = float(f.split(":")[1])
+                # alternately: the leader stays (it keeps accepting proposals it cannot commit) / random nodes stay
+                ld = leader_of(cl) if idx % 2 == 1 else None
+                victims = [nd for nd in cl.nodes[:n] if nd is not ld][:n - n // 2] if ld is not None else rnd.sample(cl.nodes[:n], n - n // 2)
+                for vn in victims:
+                    cl.stop_cont(vn, True)
+                stats["faults"].append("SIGSTOP nodes %s for %.1f s" % ([vn.id for vn in victims], dur))
+                time.sleep(dur)
+                for vn in victims:
+                    cl.stop_cont(vn, False)
+                stats["faults"].append("SIGCONT nodes %s" % [vn.id for vn in victims])
             elif f == "pause":
                 cl.stop_cont(victim, True)
                 stats["faults"].append("SIGSTOP node %d" % victim.id)
                 time.sleep(1.5)
                 cl.stop_cont(victim, False)
                 stats["faults"].append("SIGCONT node %d" % victim.id)
+        if any(f.startswith("stall:") for f in faults):
+            time.sleep(1.0)
+            stop.set()
         for t in threads:
             t.join(timeout=120)
         stop.set()
@@ -222,123 +194,34 @@ def scenario(args):
             else:
                 result["inconclusive"] = why
             return result
-        if cl.wait_serving(nodes=members, timeout=60) is None:
+        serving = cl.wait_serving(nodes=members, timeout=60) is not None
+        if not serving and not faults:
             return wedged("the cluster does not serve any more after the client load")
-        # read every key back through every node (sequential operations at the end of the history)
+        # read every key back through every node (sequential operations at the end of the history); after injected faults a
+        # node that does not answer is skipped (counted as inconclusive) and the others are still read: whatever they
+        # return must be explained by the history
+        problems = []
         for nd in members:
-            c = nd.client(timeout=6.0)
+            try:
+                c = nd.client(timeout=6.0)
+            except Exception:
+                problems.append("node %d does not accept connections after the run" % nd.id)
+                continue
             for argv in (["GET", "ctr"], ["GET", "reg"], ["LRANGE", "lst", "0", "-1"], ["SMEMBERS", "st"], ["GET", "app"], ["GET", "once"], ["HGET", "h", "n"], ["GET", "sp"]):
                 op = rec.new_op(argv)
                 try:
                     rec.done(op, conv(c.cmd(*argv, timeout=6.0)))
                 except Exception:
-                    return wedged("read-back of %s through node %d got no reply" % (" ".join(argv), nd.id))
-            c.close()
-        rec.write(path)
-        result["path"] = path
-        return result
-    finally:
-        cl.shutdown()
-
-
-import re
-LEADER_RE = re.compile(r"(\d+) became leader at term (\d+)")
-
-
-def leader_of(cl):
-    best = (0, None)
-    for nd in cl.nodes:
-        for m in LEADER_RE.finditer(cl.tail(nd, 400000)):
-            if int(m.group(2)) >= best[0]:
-                best = (int(m.group(2)), int(m.group(1)))
-    return None if best[1] is None else cl.nodes[best[1] - 1]
-
-
-def failover(args):
-    """The quorum for a burst of writes is {leader L, follower F} (follower P is down); F dies at a crash gate inside
-    its Ready loop (verif hook VERIF_CRASH_AT=<stage>#<n>, after stalling there for 80 ms) while acknowledgements are in
-    flight; then L is lost for good, F and P are restarted: {F, P} are a quorum and elect a leader. Every acknowledged
-    write was on the disks of L and F when it was acknowledged, so it must still be there: the history, with a read-back of every key through F and P, must be
-    linearizable. (Raft's 'persist before you answer' is what this scenario leans on.)"""
-    name, gate, occ, idx = args
-    rnd = random.Random(seed * 1000 + idx)
-    cl = cluster.Cluster(3, trace=False).start_all()
-    rec = Recorder(idx)
-    stats = {"answered": 0, "unanswered": 0, "faults": []}
-    result = {"name": name, "stats": stats, "path": None, "violations": [], "inconclusive": None}
-    try:
-        if cl.wait_serving(timeout=60) is None:
-            result["inconclusive"] = "cluster did not start serving"
-            return result
-        L = leader_of(cl)
-        if L is None:
-            result["inconclusive"] = "no leader line in the logs"
-            return result
-        F, P = [nd for nd in cl.nodes if nd is not L]
-        cl.kill(F)
-        cl.start_node(F, crash_at="%s#%d" % (gate, occ), crash_delay_ms=80, crash_arm="ready:entries")   # only passes that carry entries count; the loop stalls 80 ms at the gate, then the node dies
-        stats["faults"].append("restart follower %d with crash gate %s#%d" % (F.id, gate, occ))
-        if cl.wait_serving(nodes=[F], timeout=40) is None and F.alive():
-            result["inconclusive"] = "follower did not come back"
-            return result
-        if leader_of(cl) is not L:
-            result["inconclusive"] = "leader changed during preparation"
-            return result
-        cl.kill(P)                      # P is down during the burst (a paused P would still receive the entries from its socket buffers later)
-        stats["faults"].append("kill follower %d" % P.id)
-        stop = threading.Event()
-
-        def writer(c):
+                    problems.append("read-back of %s through node %d got no reply" % (" ".join(argv), nd.id))
+                    break
             try:
-                conn = L.client(timeout=3.0)
+                c.close()
             except Exception:
-                return
-            for i in range(1500):
-                if stop.is_set():
-                    break
-                op = rec.new_op(["SET", "k%d" % rnd.randrange(16), "c%dv%d" % (c, i)])
-                try:
-                    rec.done(op, conv(conn.cmd(*op["argv"], timeout=3.0)))
-                    stats["answered"] += 1
-                except Exception:
-                    stats["unanswered"] += 1
-                    break
-        threads = [threading.Thread(target=writer, args=(c,)) for c in range(4)]
-        for t in threads:
-            t.start()
-        t0 = time.time()
-        while F.alive() and time.time() - t0 < 20 and any(t.is_alive() for t in threads):
-            time.sleep(0.01)
-        died_at_gate = not F.alive()
-        cl.stop_cont(L, True)           # the leader may not re-send what it has: freeze it, then lose it
-        stop.set()
-        stats["faults"].append("follower %d %s; SIGSTOP + kill leader %d" % (F.id, "died at the gate" if died_at_gate else "never reached the gate", L.id))
-        if F.alive():
-            cl.kill(F)
-        cl.start_node(F)
-        cl.kill(L)
-        cl.start_node(P)
-        for t in threads:
-            t.join(timeout=30)
-        if not died_at_gate:
-            result["inconclusive"] = "gate %s#%d not reached under load" % (gate, occ)
-        if cl.wait_serving(nodes=[F, P], timeout=60) is None:
-            result["inconclusive"] = "the surviving quorum did not elect a leader in 60 s"
-            return result
-        path = os.path.join(d, "hist-%d.ndjson" % idx)
-        for nd in (F, P):
-            c = nd.client(timeout=6.0)
-            for k in range(16):
-                op = rec.new_op(["GET", "k%d" % k])
-                try:
-                    rec.done(op, conv(c.cmd(*op["argv"], timeout=6.0)))
-                except Exception:
-                    result["inconclusive"] = "read-back through node %d got no reply" % nd.id
-                    return result
-            c.close()
+                pass
+        if problems:
+            return wedged(problems[0])
         rec.write(path)
         result["path"] = path
-        result["inconclusive"] = None if died_at_gate else result["inconclusive"]
         return result
     finally:
         cl.shutdown()
@@ -346,18 +229,25 @@ def failover(args):
 
 if tier == "quick":
     plan = [("steady", 3, [], 6, 20), ("follower-or-leader-kill", 3, ["kill-restart"], 5, 25), ("pause", 3, ["pause"], 5, 20),
-            ("pinned-one-client-per-node", 3, [], 3, 40), ("membership-add", 3, ["add-node"], 5, 40), ("membership-remove", 3, ["remove-node"], 5, 40)]
+            ("pinned-one-client-per-node", 3, [], 3, 40), ("membership-add", 3, ["add-node"], 5, 40), ("membership-remove", 3, ["remove-node"], 5, 40),
+            ("quorum-stall", 3, ["stall:6.5"], 6, 150)]
 else:
     plan = [("steady", 3, [], 8, 30), ("steady-5", 5, [], 8, 25), ("pinned-one-client-per-node", 3, [], 3, 60), ("pinned-5", 5, [], 5, 40),
             ("pinned-then-kill", 3, ["kill-restart"], 3, 60), ("membership-add", 3, ["add-node"], 6, 60), ("membership-remove", 3, ["remove-node"], 6, 60),
             ("membership-add-kill", 3, ["add-node", "kill-restart"], 6, 70), ("membership-remove-5", 5, ["remove-node", "kill-restart"], 6, 60)] + [("kill-restart", 3, ["kill-restart"], 5, 30)] * 4 + \
            [("two-kills", 3, ["kill-restart", "kill-restart"], 5, 35)] * 3 + [("pause", 3, ["pause"], 5, 25)] * 2 + \
-           [("kill-5", 5, ["kill-restart", "pause", "kill-restart"], 6, 30)] * 2
+           [("kill-5", 5, ["kill-restart", "pause", "kill-restart"], 6, 30)] * 2 + \
+           [("quorum-stall", 3, ["stall:6.5"], 6, 150), ("quorum-stall-12", 3, ["stall:12"], 6, 150), ("quorum-stall-35", 3, ["stall:35"], 6, 150), ("quorum-stall-5", 5, ["stall:8"], 8, 150)]
 jobs = [(name, n, faults, nc, nops, i + 1) for i, (name, n, faults, nc, nops) in enumerate(plan)]
+ONLY = os.environ.get("VERIF_C07_ONLY")      # development aid: run only the scenarios whose name contains this
+if ONLY:
+    jobs = [j for j in jobs if ONLY in j[0]]
 gates = [("send", 120), ("walsave", 120)] if tier == "quick" else [(g, o) for g in ("ready", "walsave", "append", "send", "publish", "advance") for o in (60, 200)]
 fjobs = [("failover-after-follower-crash-at-%s" % g, g, o, 100 + i) for i, (g, o) in enumerate(gates)]
+if ONLY:
+    fjobs = [j for j in fjobs if ONLY in j[0]]
 with concurrent.futures.ThreadPoolExecutor(max_workers=4) as ex:
-    fut = [ex.submit(scenario, j) for j in jobs] + [ex.submit(failover, j) for j in fjobs]
+    fut = [ex.submit(scenario, j) for j in jobs] + [ex.submit(clusterscen.failover, j, seed, d) for j in fjobs]
     results = [f.result() for f in fut]
 hist_paths = []
 skipped = 0
@@ -372,12 +262,12 @@ for r in results:
         hist_paths.append((r["name"], r["path"]))
 cov["skipped_inconclusive"] = skipped
 with concurrent.futures.ThreadPoolExecutor(max_workers=4) as ex:
-    for (name, path), (nonlin, states) in zip(hist_paths, ex.map(lambda p: conc.validate_hist(p[1], timeout=2400), hist_paths)):
+    for (name, path), (nonlin, states) in zip(hist_paths, ex.map(lambda p: conc.validate_hist_split(p[1], timeout=2400), hist_paths)):
         cov["traces_validated_against_impl"] += 1
         cov["states"] += states
         cov["transitions"] += states
         for n in nonlin:
-            hist = conc.history_of(path, n["h"])
+            hist = conc.history_of(n["path"], n["sub_h"])     # the sub-history of the key concerned (linearizability is local)
             v.report({"branch": "cluster.lin." + ks.b2s(n["argv"][0]).lower(), "kind": "non-linearizable", "detail": name},
                      {"scenario": name, "history": hist, "failing_response": n},
                      what="scenario %s: no sequential order explains reply %s of %s (read-backs are per node: a replica that disagrees shows up here)\n  %s" % (
